@@ -94,6 +94,44 @@ Theorem C03_one_reply_in_order :
 Proof. exact one_reply_in_order. Qed.
 Print Assumptions C03_one_reply_in_order.
 
+(* Premise about the transport, made explicit.  `conn_output` models every reply write as complete.
+   `emit close plan rs` is what the client can read when the successive conn.Write calls have
+   the outcomes `plan` (None = complete, Some n = error after n bytes) and the loop, after a
+   failed write, closes the connection (close = true) or carries on (false).
+   write_atomic_or_close close plan := close = true \/ every write of the plan is complete.
+   Under it the client reads complete replies to a prefix of the commands, in order, then at
+   most a fragment of the next one, then nothing; with complete writes exactly `conn_output`.
+   The premise is re-read from server/db_manager.go on every run (`harness_resp writecheck`)
+   and exercised by the slow-reader scenario of checks/c03.py. *)
+Theorem C03_write_atomic_or_close : forall (close : bool) (plan : wplan) (rs : list reply),
+  write_atomic_or_close close plan ->
+  emit close plan rs = encode_replies rs
+  \/ exists k r n, nth_error rs k = Some r
+       /\ emit close plan rs = encode_replies (firstn k rs) ++ firstn n (encode_reply r).
+Proof. exact write_atomic_or_close_sound. Qed.
+Print Assumptions C03_write_atomic_or_close.
+
+Theorem C03_atomic_writes_are_the_model :
+  forall (St : Type) (exec1 : St -> list bytes -> option reply * St) (close : bool) (plan : wplan)
+         (s : St) (bs : bytes),
+  Forall (fun w => w = None) plan ->
+  conn_output St exec1 s bs = emit close plan (replies St exec1 s (executed bs)).
+Proof. exact conn_output_emit. Qed.
+Print Assumptions C03_atomic_writes_are_the_model.
+
+(* Without the premise the property fails: a write that gives up after 7 bytes, followed by the
+   next reply, leaves "$5 CRLF hel+PONG CRLF" -- the client decodes no reply at all. *)
+Theorem C03_splice_refutes_without_premise :
+  let rs := [RBulk ["h"; "e"; "l"; "l"; "o"]%byte; RSimple ["P"; "O"; "N"; "G"]%byte] in
+  emit false [Some 7%nat] rs
+    = ["$"; "5"; "013"; "010"; "h"; "e"; "l"; "+"; "P"; "O"; "N"; "G"; "013"; "010"]%byte
+  /\ decode_stream (emit false [Some 7%nat] rs) <> (rs, [])
+  /\ fst (decode_stream (emit false [Some 7%nat] rs)) = []
+  /\ ~ write_atomic_or_close false [Some 7%nat]
+  /\ emit true [Some 7%nat] rs = ["$"; "5"; "013"; "010"; "h"; "e"; "l"]%byte.
+Proof. exact splice_counterexample. Qed.
+Print Assumptions C03_splice_refutes_without_premise.
+
 (* the same however the stream is split across reads *)
 Theorem C03_one_reply_in_order_chunked :
   forall (St : Type) (exec1 : St -> list bytes -> option reply * St),
